@@ -57,6 +57,10 @@ pub enum Net {
     V6MappedHot(u8),
     /// only an IPv6 address with 96 leading zero bits (::1 for everybody, told apart by the port)
     V6Loopback,
+    /// an IPv4 address in hot subnet <n> but no UDP port (ip4 + tcp4 only)
+    HotNoUdp(u8),
+    /// 127.0.0.x : an IPv4 loopback /24 (with a UDP port)
+    Loopback4,
 }
 
 #[derive(Clone, Copy, Debug, PartialEq, Eq, Hash, serde::Serialize, serde::Deserialize)]
@@ -92,6 +96,12 @@ pub fn record(spec: RecSpec) -> Enr {
             }
             Net::V6Loopback => {
                 b.ip6(Ipv6Addr::LOCALHOST).udp6(9000 + (spec.key % 1000) as u16);
+            }
+            Net::HotNoUdp(n) => {
+                b.ip4(Ipv4Addr::new(10, 0, n, host)).tcp4(9000 + (spec.key % 1000) as u16);
+            }
+            Net::Loopback4 => {
+                b.ip4(Ipv4Addr::new(127, 0, 0, host)).udp4(9000 + (spec.key % 1000) as u16);
             }
         }
         let e = b.build(&k).expect("record builds");
